@@ -200,9 +200,12 @@ func (c CounterStyle) renderValue(counterValue int, counter *CounterStyleDescrip
 			return c.renderValue(counterValue, c.resolveCounter(counter.fallback(), previousTypes), previousTypes)
 		}
 	case "symbolic":
+		if len(counter.Symbols) == 0 {
+			return c.RenderValue(counterValue, "decimal")
+		}
 		initial, ok = symbolic(counter.Symbols, counterValue)
 		if !ok {
-			return c.RenderValue(counterValue, "decimal")
+			return c.renderValue(counterValue, c.resolveCounter(counter.fallback(), previousTypes), previousTypes)
 		}
 	case "alphabetic":
 		initial, ok = alphabetic(counter.Symbols, counterValue)
@@ -255,7 +258,12 @@ func repeating(symbols []pr.NamedString, value int) (string, bool) {
 	if len(symbols) == 0 {
 		return "", false
 	}
-	return symbol(symbols[(value-1)%len(symbols)]), true
+	// mathematical modulo : the cyclic system is defined over all integers
+	index := (value - 1) % len(symbols)
+	if index < 0 {
+		index += len(symbols)
+	}
+	return symbol(symbols[index]), true
 }
 
 // Implement the algorithm for `type: non-repeating`.
@@ -271,6 +279,10 @@ func nonRepeating(symbols []pr.NamedString, firstValue, value int) (string, bool
 // Implement the algorithm for `type: symbolic`.
 func symbolic(symbols []pr.NamedString, value int) (string, bool) {
 	if len(symbols) == 0 {
+		return "", false
+	}
+	if value < 1 {
+		// the symbolic system is only defined over strictly positive values
 		return "", false
 	}
 	L := len(symbols)
